@@ -100,8 +100,17 @@ func newC17State() *c17State { return &c17State{fields: map[string]*c17Field{}} 
 
 func (s *c17State) add(row Row) {
 	s.n++
-	for _, f := range []string{"v", "w"} {
+	for _, f := range []string{"v", "w", "v*2", "v + w"} {
 		x, ok := toF(row[f])
+		switch f {
+		case "v*2": // an expression argument is evaluated per row; NULL when its operand is
+			x, ok = toF(row["v"])
+			x *= 2
+		case "v + w":
+			y, ok2 := toF(row["w"])
+			x, ok = toF(row["v"])
+			x, ok = x+y, ok && ok2
+		}
 		if !ok {
 			continue // NULL or missing: skipped by every aggregate
 		}
